@@ -1,12 +1,74 @@
-"""Accumulative mode (edge_removal=False): invariant and kernel post-conditions (C08)."""
+r"""Accumulative mode (edge_removal=False): invariant and kernel post-conditions (C08).
+
+Presence in this mode is  P(a,b,q) := Ever(a,b) /\ s_0(a,b) <= q <= max(dom Cnt)  - a function of three
+observables: which pairs exist, the first start of each pair, and the set of snapshot ids.  The kernel
+clauses pin exactly those three (plus the event log), so that the presence statement of C08 follows from
+the contract of __presence_test."""
 import z3
 from pyvc import spec
+from pyvc.sym import (fresh, Node, Int, Op, OP_PLUS, OP_MINUS, FA, FA_idx, inb, concrete_int, IntV, evk)
 
 
-def inv_assume(ctx, g, view, nodes, pairs):
-    ctx.assume(spec.shape_h(g, nodes, pairs), 'shape')
+def events_h(g, a, b):
+    r, n, S, E = spec.tl(g, a, b)
+    q = z3.Int('q?aev')
+    op = z3.Const('op?aev', Op)
+    Evq = g['Ev'][q]
+    pats = [Evq[evk(a, b, OP_PLUS)]] + ([] if g.directed else [Evq[evk(b, a, OP_PLUS)]])
+    hs = [z3.Implies(r == 0, FA([q, op], z3.Not(spec.ev_pair(g, q, a, b, op)),
+                                [Evq[evk(a, b, op)]] + ([] if g.directed else [Evq[evk(b, a, op)]]))),
+          z3.Implies(r != 0, FA([q], z3.Implies(spec.ev_pair(g, q, a, b, OP_PLUS), q == S[0]), pats)),
+          z3.Implies(r != 0, spec.ev_pair(g, S[0], a, b, OP_PLUS)),
+          FA([q], z3.Not(spec.ev_pair(g, q, a, b, OP_MINUS)),
+             [Evq[evk(a, b, OP_MINUS)]] + ([] if g.directed else [Evq[evk(b, a, OP_MINUS)]]))]
+    if not g.directed:
+        hs.append(z3.Implies(a != b, FA([q, op], z3.Not(z3.And(spec.ev_at(g, q, a, b, op), spec.ev_at(g, q, b, a, op))),
+                                        [z3.MultiPattern(Evq[evk(a, b, op)], Evq[evk(b, a, op)])])))
+    return hs
+
+
+def events_goals(g, a, b, q, op):
+    r, n, S, E = spec.tl(g, a, b)
+    goals = {
+        'no_event_without_pair': z3.Implies(r == 0, z3.Not(spec.ev_pair(g, q, a, b, op))),
+        'plus_only_at_first_appearance': z3.Implies(z3.And(r != 0, spec.ev_pair(g, q, a, b, OP_PLUS)), q == S[0]),
+        'plus_at_first_appearance': z3.Implies(r != 0, spec.ev_pair(g, S[0], a, b, OP_PLUS)),
+        'no_minus_event': z3.Not(spec.ev_pair(g, q, a, b, OP_MINUS)),
+    }
+    if not g.directed:
+        goals['one_orientation'] = z3.Implies(a != b, z3.Not(z3.And(spec.ev_at(g, q, a, b, op), spec.ev_at(g, q, b, a, op))))
+    return goals
+
+
+def inv_assume(ctx, g, view, nodes, pairs, shape_pairs=None):
+    ctx.assume(spec.shape_h(g, nodes, list(pairs) + list(shape_pairs or [])), 'shape')
     ctx.assume(spec.tte_h(g), 'tte')
+    for (a, b) in pairs:
+        ctx.assume(spec.snapkeys_h(g, a, b), 'snapkeys')
+        ctx.assume(events_h(g, a, b), 'events')
 
 
 def post_kernel(contract, ctx, c):
-    pass
+    g, pre = c.g, c.pre
+    u, v, x, y, x2, y2, q, op = c.u, c.v, c.qx, c.qy, c.qx2, c.qy2, c.qq, c.qop
+    same = spec.samepair(g, x, y, u, v)
+    T = ('C08',)
+    ctx.oblige('C08.ever', spec.ever(g, x, y) == z3.Or(spec.ever(pre, x, y), same), tags=T, use=('shape',))
+    r1, n1, S1, E1 = spec.tl(g, x, y)
+    r0, n0, S0, E0 = spec.tl(pre, x, y)
+    ctx.oblige('C08.first_appearance_kept', z3.Implies(r0 != 0, S1[0] == S0[0]), tags=T, use=('shape',))
+    ctx.oblige('C08.first_appearance_of_new_pair', z3.Implies(z3.And(r0 == 0, same), S1[0] == c.t), tags=T, use=('shape',))
+    ctx.oblige('C08.snapshot_ids_are_accepted_adds', g['SKey'][q] == z3.Or(pre['SKey'][q], q == c.t), tags=T,
+               use=('shape', 'snapkeys'))
+    for name, f in spec.snapkeys_goals(g, x, y, q).items():
+        ctx.oblige('C08.' + name, f, tags=T, use=('shape', 'snapkeys'))
+    for name, f in events_goals(g, x, y, q, op).items():
+        ctx.oblige('C08.events.' + name, f, tags=T, use=('shape', 'events', 'tte'))
+    for name, f in spec.tte_goals(g, q).items():
+        ctx.oblige('C08.events.' + name, f, tags=T, use=('shape', 'tte'))
+    for name, f in spec.shape_goals(g, x, y, x2, y2).items():
+        ctx.oblige('C08.shape.' + name, f, tags=T, use=('shape',))
+    ctx.oblige('C08.nodes', g['NodeIn'][x] == z3.Or(pre['NodeIn'][x], x == u, x == v), tags=T, use=('shape',))
+    ctx.oblige('C08.node_attributes_kept', z3.Implies(pre['NodeIn'][x], g['NAttr'][x] == pre['NAttr'][x]), tags=T, use=('shape',))
+    for comp in ('GAttr', 'ER', 'Frozen'):
+        ctx.oblige('C08.frame.' + comp, g[comp] == pre[comp] if not g[comp].eq(pre[comp]) else z3.BoolVal(True), tags=T)
